@@ -134,7 +134,7 @@ def run(tier, seed):
     for op in unary + binary + ternary:
         if op not in SPELL:
             raise vlib.Inconclusive("no spelling for operator %r" % op)
-    n_rand = 1500 if thorough else 60
+    n_rand = 4500 if thorough else 60
     rand_pairs = [(rand_operand(rnd), rand_operand(rnd)) for _ in range(n_rand)]
     # pairs around the 64-bit boundary of the product: a random a with the b for which a * b is next to 2^63 (sampling only)
     for _ in range(n_rand // 3):
